@@ -77,7 +77,8 @@ class Shape:
 
 
 def shapes(max_clauses: int, null_results: str) -> List[Shape]:
-    """null_results: 'all' = every null placement on results, 'thin' = at most one null result."""
+    """null_results: 'all' = every null placement on results, 'thin' = at most one null result, 'quick' = thin and, for
+    three clauses, at most one null constant among values and results (the generators treat the clauses independently)."""
     out: List[Shape] = []
     for k in range(max_clauses + 1):
         for ar in itertools.product((1, 2), repeat=k):
@@ -92,7 +93,9 @@ def shapes(max_clauses: int, null_results: str) -> List[Shape]:
                 if bad:
                     continue
                 for rn in itertools.product((False, True), repeat=k):
-                    if null_results == "thin" and sum(rn) > 1:
+                    if null_results in ("thin", "quick") and sum(rn) > 1:
+                        continue
+                    if null_results == "quick" and k == 3 and sum(rn) + sum(vn) > 1:
                         continue
                     for dn in (False, True):
                         out.append(Shape(ar, vn, rn, dn))
@@ -476,7 +479,7 @@ def sql_tier(chk: Check) -> None:  # noqa: C901
               for vs, r in zip(sh.slots(), sh.results())]
         return rule, cl, c.sv(None if sh.default() is None else c.const[sh.default()])
 
-    fam_pair = shapes(3, "all" if thorough else "thin")
+    fam_pair = shapes(3, "all" if thorough else "quick")
     fam_fold = shapes(3 if thorough else 2, "thin")
     chk.extra["rule_shapes"] = {"pair/single": len(fam_pair), "fold": len(fam_fold)}
 
@@ -827,7 +830,7 @@ def conformance(chk: Check) -> None:
             if m1 != r1:
                 bad.append(f"{sql1} on {a!r}: model {m1!r}, DuckDB {r1!r}")
         for k in (1, 2, 3):
-            for vals in itertools.product(dom[:4], repeat=k):
+            for vals in itertools.product(dom[:4] if k < 3 else dom[:3], repeat=k):
                 sg = R.fn("vp_group_sql")(rule, COL)
                 mg = unatom(eng.value_of(sg, {}, {"vat_1": [atom(v) for v in vals]}))
                 rg = native_group(sg, list(vals), "VARCHAR")
@@ -850,7 +853,7 @@ def conformance(chk: Check) -> None:
     for fn in AGGS:
         rule = R.aggregate(fn)
         for k in (1, 2, 3):
-            for vals in itertools.product(ndom, repeat=k):
+            for vals in itertools.product(ndom if k < 3 else [None, Fraction(2), Fraction(5, 2)], repeat=k):
                 typ = num_type(vals)
                 todo = [(R.fn("vp_group_sql")(rule, COL), {}, True, False), (R.fn("vp_dataset_wide_sql")(rule, COL), {"vat_1": num(vals[0])}, True, True),
                         (R.fn("vp_no_rule_group_sql")(COL), {}, True, False)]
@@ -1747,7 +1750,8 @@ class BTier:
         self.batches += [(INT_KIND, wn, self.orders[0], [0, 4]) for wn in (False, True)]
         self.jobs: List[Tuple[str, str, str, bool, Any, List[int]]] = [
             (self.progs[i][0], self.progs[i][1], kind, wn, self.progs[i][2], order) for kind, wn, order, idx in self.batches for i in idx]
-        self.pool = ProcessPoolExecutor(max_workers=min(core.NCPU, 16), mp_context=mp.get_context("fork"))
+        # half of the cores: the parent (model conformance, symbolic evaluation, z3 batches) runs at the same time
+        self.pool = ProcessPoolExecutor(max_workers=max(2, min(core.NCPU, 16) // 2), mp_context=mp.get_context("fork"))
         self.futs = [self.pool.submit(b_job, (kind, wn, [self.progs[i][2] for i in idx], order))
                      for kind, wn, order, idx in self.batches]
 
